@@ -43,7 +43,11 @@ Definition nextAlloc (curr max req : Z) : res Z :=
       else if want >? double then Ok padreq
       else
         let new := grow 400 curr want in
-        if new <=? 0 then Ok padreq
+        (* the loop has left: 400 iterations are never used up (from curr >= 512 the value
+           doubles every 4 iterations and wraps negative after < 220); kept as an error outcome
+           so that no theorem depends on it *)
+        if (0 <? new) && (new <? want) then Err
+        else if new <=? 0 then Ok padreq
         else
           let delta := new - curr in
           if delta >? maxAllocSize then Ok maxAllocSize else Ok ((delta + 7) / 8 * 8).
